@@ -8,6 +8,7 @@ CONSTANTS
   MaxFaults = 0
   Victims = {}
   UniqueIds = FALSE
+  CleanCut = FALSE
 INIT Init
 NEXT Next
 CHECK_DEADLOCK FALSE
